@@ -18,13 +18,13 @@ RULE = (
     "the probability-integral (Rosenblatt) transform computed by the harness from the *spec* must be uniform by the DKW bound at "
     "error probability 1e-12, also separately on the rows below / above the conditioner's median (catches a wrong conditioning "
     "column or row), pairwise independent by a Hoeffding bound; seeding relations (same int => bit-identical, identically seeded "
-    "Generators => identical, re-used Generator => different, different ints => different, None twice => different). "
+    "Generators => identical, re-used Generator => different, different ints => different, None twice => different); an i.i.d. sample does not repeat rows (distinct rows vs distinct rows of the harness' own inverse-Rosenblatt sample of the same size; model samples reach 1e6 rows in both tiers). "
     "Non-trivial: n >= 5000 (statistical power) and, for models, a dependent parameter varying >= 10 %."
 )
 ASSUMPTIONS = [
     "reference cdfs are the documented formulas (vp/oracles/formulas.py); the von Mises cdf reference is a 4000-point cumulative Gauss-Legendre table of the documented pdf, compared modulo 2 pi",
     "statistical comparisons use distribution-free DKW/Hoeffding bounds with error probability 1e-12 per comparison; draws are seeded so a run is deterministic",
-    "sample sizes up to 2e5 (quick) / 1e6 (thorough)",
+    "sample sizes up to 2e5 (quick; joint models also 250000 .. 1e6 in 1/9 of the cases) / 1e6 (thorough)",
     "'bit-for-bit' reproduction is judged at rtol 1e-9 (plus 1e-9 of the sample's magnitude): numpy's vectorised exp/log/pow kernels round the last bit differently depending on buffer alignment, so two identical calls can differ by 1 ulp in a few entries, which the inverse cdf of a dependent variable amplifies to ~1e-14 (observed on this platform); a different random stream differs in every digit",
 ]
 
@@ -163,14 +163,18 @@ def check_univariate(case, ctx):
             ctx.violation(f"raises:seeding:{tag}:{type(e).__name__}", str(e))
 
 
-def sizes(tier):
+def sizes(tier, large=False):
     big = 200000 if tier == "quick" else 1000000
-    return st.one_of(
+    opts = [
         st.sampled_from([1, 2, 7, 50, 1000]),
         st.integers(5000, 20000),
         st.integers(5000, 20000),
         st.integers(20000, big),
-    )
+    ]
+    if large:
+        # sizes users pass for Monte-Carlo contours (seeded change C07e: block-wise drawing above 250000 rows)
+        opts = opts * 2 + [st.sampled_from([250000, 250001, 300000, 524288, 1000000])]
+    return st.one_of(*opts)
 
 
 def strat_univariate(tier):
@@ -209,6 +213,19 @@ def check_joint(case, ctx):
     if not np.all(np.isfinite(X)):
         ctx.violation("nonfinite:model", f"{int(np.sum(~np.isfinite(X)))} non-finite entries")
         return
+    if n >= 5000:
+        # an i.i.d. sample of a continuous law does not repeat rows: compared with the harness' own inverse-Rosenblatt sample
+        # of the same size (which has the same float representability), never against an absolute count
+        d = len(np.unique(X, axis=0))
+        if d < 0.9 * n:
+            Uref = np.random.default_rng(case["seed2"]).uniform(1e-12, 1 - 1e-12, size=(n, n_dim))
+            try:
+                d_ref = len(np.unique(refmodel.inverse_rosenblatt(spec, Uref), axis=0))
+            except Exception:  # noqa: BLE001
+                d_ref = None
+            if d_ref is not None and d < 0.6 * d_ref:
+                ctx.violation("iid:repeated_rows", f"n={n} rs={case['rs']}: {d} distinct rows, a reference sample of the model has {d_ref}")
+        ctx.cls("large_n" if n >= 250000 else "n<250000")
     if n >= 400:
         U = np.empty_like(X, dtype=float)
         usable = [True] * n_dim
@@ -267,7 +284,7 @@ def strat_joint(tier):
     return st.builds(
         lambda m, n, seed, seed2, rs: dict(model=m, n=n, seed=seed, seed2=seed2, rs=rs),
         models.model_spec(n_dims=(2, 3, 3, 4)),
-        sizes(tier),
+        sizes(tier, large=True),
         st.integers(0, 2**31 - 1),
         st.integers(0, 2**31 - 1),
         st.sampled_from(["int", "int", "gen", "none"]),
